@@ -379,6 +379,28 @@ func (e *env) deepReorg(caseID string, d int) {
 	}
 	r.Count("requests_of_more_than_500_items", 1)
 	r.Case("", false)
+	if len(req) >= 3000 {
+		// the same items three times over in one request (12 000 items, more than a megabyte of JSON): one verdict per item
+		big := append(append(append([]item(nil), req...), req...), req...)
+		bb, _ := json.Marshal(big)
+		w := stx.POST("/api/v1/chain/merkleroot/verify", bb)
+		var rb resp
+		if w.Code != 200 || mb.DecodeOne(w.Body.Bytes(), &rb) != nil || len(rb.Confirmations) != len(big) {
+			body := w.Body.String()
+			if len(body) > 200 {
+				body = body[:200]
+			}
+			r.Violate("long-request|http|megabyte", fmt.Sprintf("POST verify with %d items (%d bytes) -> %d with %d verdicts: %s", len(big), len(bb), w.Code, len(rb.Confirmations), body), caseID, map[string]any{"items": len(big), "bytes": len(bb)})
+			return
+		}
+		for i := range big {
+			if c := rb.Confirmations[i]; c.MerkleRoot != big[i].Root || c.Confirmation != want[i%len(want)] {
+				r.Violate("long-request|megabyte|verdict", fmt.Sprintf("request of %d items, item %d: verdict %s for %s, expected %s for %s", len(big), i, c.Confirmation, c.MerkleRoot, want[i%len(want)], big[i].Root), caseID, map[string]any{"items": len(big)})
+				return
+			}
+		}
+		r.Count("requests_of_more_than_a_megabyte", 1)
+	}
 	r.Count("deep_reorganisations", 1)
 	r.Count("states_after_reorg", 1)
 }
